@@ -360,6 +360,10 @@ def desugar(text, rules, counts):
             text, c = _r_mapiter(text)
         elif r in ("R-QCLOSURE", "R-UNDERSCORE"):
             text, c = _r_qclosure(text)
+        elif r == "R-REC":
+            text, c = _r_rec(text)
+        elif r == "R-SPAWN":
+            c = text.count("vx_task")  # the hoisting itself is done by hoist_spawn() before the other rules
         else:
             raise SpliceError("unknown desugaring " + r)
         # a listed desugaring without a site is not an error: the list says what MAY be rewritten in this function
@@ -625,3 +629,53 @@ def _r_qclosure(text):
     return out, n
 
 
+
+
+def _r_rec(text, name=None):
+    """R-REC: a call of the function to itself goes to `<name>__rec`, an external_body copy of the signature that carries the
+    same contract (the induction hypothesis of a partial-correctness proof; termination is NOT proved). Needed for a recursive
+    `async fn`: rustc demands boxing (done by #[async_recursion] in the source), and Verus supports neither the attribute macro nor Pin."""
+    sh = FnShape(text)
+    name = name or sh.name
+    m = mask(text)
+    sites = [mt for mt in re.finditer(r"\b%s\b" % re.escape(name), m) if mt.start() > sh.body_open]
+    for mt in reversed(sites):
+        text = text[:mt.end()] + "__rec" + text[mt.end():]
+    return text, len(sites)
+
+
+def hoist_spawn(text, cfgs):
+    """R-SPAWN: `tokio::spawn(async move { BODY })` -> `tokio::spawn(Self::<task>(<captures>))`, with BODY hoisted verbatim into an
+    associated `async fn <task>(<captures with declared types>) -> <declared type> { BODY }` (Verus has no async blocks).
+    The capture list and the types are declared in unit.toml; rustc checks them (a missing capture does not compile).
+    Returns (new text, [(cfg, hoisted fn text, line offset of BODY in the original)])."""
+    m = mask(text)
+    sites = []
+    for mt in re.finditer(r"\btokio\s*::\s*spawn\s*\(\s*async\s+move\s*\{", m):
+        bo = mt.end() - 1
+        bc = match_close(m, bo)
+        e = skip_ws(m, bc + 1)
+        if m[e] != ")":
+            raise SpliceError("R-SPAWN: async block is not the only argument of tokio::spawn")
+        po = m.index("(", mt.start())
+        sites.append((po, e, bo, bc))
+    if len(sites) != len(cfgs):
+        raise SpliceError("R-SPAWN: %d spawn sites, %d declared" % (len(sites), len(cfgs)))
+    sh = FnShape(text)
+    gen_text = ""
+    mt = re.search(r"\bfn\s+\w+\s*(<)", sh.m)
+    if mt and mt.start(1) < sh.params_open:
+        gen_text = text[mt.start(1):sh.params_open].strip()
+    hoisted = []
+    for (cfg, (po, e, bo, bc)) in reversed(list(zip(cfgs, sites))):
+        body = text[bo:bc + 1]
+        names = [p.split(":")[0].strip() for p in _split_commas(cfg["params"])]
+        targs = cfg.get("turbofish", "")
+        call = "Self::%s%s(%s)" % (cfg["name"], targs, ", ".join(names))
+        nl = text.count("\n", po + 1, e)
+        line_off = text.count("\n", 0, bo)
+        fn_text = "    async fn %s%s(%s) -> %s %s" % (cfg["name"], gen_text, cfg["params"], cfg["returns"], body)
+        hoisted.append((cfg, fn_text, line_off))
+        text = text[:po + 1] + call + "\n" * nl + text[e:]
+    hoisted.reverse()
+    return text, hoisted
